@@ -179,6 +179,19 @@ def stepMerger (s : St) (line : String) : Option (St × String) :=
         | none => none
       | none => none
     | none => none
+  | "m.tool" :: mid :: _ =>
+    -- src/mtbl_merge: merger with the DSO's merge function (multiset union) over the same tables, every merged entry added to
+    -- a writer, the output read back: by C04_merge + C04_source_write + C01 that is the merged content
+    match mid.toNat? with
+    | some m => match s.mergers[m]? with
+      | some (_, _, tabs) =>
+        let c := mkMCfg s "union" false
+        let content := match mergerIter c tabs .iter [] with
+          | some it => drainMerger c it ((tabs.map List.length).sum + 1) []
+          | none => []
+        some (s, "ents" ++ String.join (content.map fun e => " " ++ hex e.key ++ " " ++ hex e.val))
+      | none => none
+    | none => none
   | "m.write" :: mid :: args =>
     -- mtbl_source_write(mtbl_merger_source(m), fresh writer): the merged content through `W.writeFrom`, then the writer is finished
     match mid.toNat? with
